@@ -15,6 +15,7 @@ import (
 	"encoding/binary"
 	"fmt"
 	"io"
+	"os"
 	"runtime"
 	"strconv"
 	"strings"
@@ -143,6 +144,9 @@ func c09RunHistory(kind string, seed uint64, st *VStream, stat *VStats, run func
 			return true
 		}
 		wheres = append(wheres, fmt.Sprintf("%s@op%d", where, st.N-before))
+		if os.Getenv("VERIF_C09_DEBUG") != "" {
+			fmt.Fprintf(os.Stderr, "c09 %s attempt %d abandoned: %s\n", kind, attempt, wheres[len(wheres)-1])
+		}
 	}
 	if wheres[0] == wheres[1] && wheres[1] == wheres[2] {
 		stat.Inc(kind + ".hang")
@@ -864,6 +868,7 @@ func c09PipeScenario(r *VRand, st *VStream, stat *VStats) (ok bool, where string
 				select {
 				case <-wt.done:
 				case <-time.After(c09PipeWait):
+					c09Lost("after Close() of its connection a waiting RoundTrip did not return within the budget")
 				}
 			}
 		}
